@@ -4,6 +4,7 @@ import AlgoVerif.Proofs.C12Term
 import AlgoVerif.Proofs.C10TableEq
 import AlgoVerif.Proofs.C12ASTStack
 import AlgoVerif.Proofs.C12Faults
+import AlgoVerif.Proofs.C10Edit
 /-!
 # C12 — the predictive parser accepts exactly L(G) for LL(1) grammars
 
@@ -307,6 +308,52 @@ theorem C12_lexer_error_returned (g : Grammar T N) (an : Analysis T N) (fuel : N
     rw [C12_error_stops_parse g an (some (j + 1)) none none fuel w _ e h, cutEvents_lexer j t E₁ E₂ 0 e hfirst]
     simp
 
+/-! ### the lexer's end of input, one parser object over time (`Model/C10Edit.lean`)
+
+`nextToken` turns every error `err` with `errors.Is(err, io.EOF)` into the endmarker and hands every other error back;
+`parseWithL` is `Parse` on a lexer given by what its calls return (`LexAnswer`: a token, an end-of-input error of any
+make with any token beside it, another error).  `predictive.New` keeps the pointer to the caller's grammar and `Parse`
+builds the table from it every time; `parserHistory` is one parser object over a history of in-place edits of that
+grammar (every way the API allows: `Edit`) and `Parse` calls. -/
+
+/-- **`Parse` sees the tokens and nothing else.**  For every lexer — whatever error it ends its input with (`io.EOF`,
+wrapped, joined, a type of its own), whatever token it returns beside that error, wherever it fails — `Parse` is
+`parseWithF` on the tokens delivered before the first call that returned an error, failing at that call iff the error
+is not an end-of-input error; so all theorems above apply, and two lexers that deliver the same tokens and then end
+give the same result. -/
+theorem C12_lexer_end_of_input (g : Grammar T N) (an : Analysis T N) (lx : List (LexAnswer T))
+    (tokFail prodFail : Option Nat) (fuel : Nat) :
+    parseWithL g an lx tokFail prodFail fuel = parseWithF g an (lexFailAt lx) tokFail prodFail fuel (lexTokens lx) ∧
+    ∀ lx' : List (LexAnswer T), lexTokens lx' = lexTokens lx → lexFailAt lx' = lexFailAt lx →
+      parseWithL g an lx' tokFail prodFail fuel = parseWithL g an lx tokFail prodFail fuel := by
+  refine ⟨parseWithL_eq g an lx tokFail prodFail fuel, ?_⟩
+  intro lx' ht hf
+  rw [parseWithL_eq, parseWithL_eq, ht, hf]
+
+/-- **A parser object answers for the grammar as it is.**  One parser made for a grammar object `g` (a set grammar, as
+`NewCFG` makes it), any history of in-place edits of `g` and `Parse` calls of that parser on new inputs: the `Parse` that
+comes after the steps `pre` is the `Parse` of a fresh parser on `applyEdits g (editsOf pre)`; so when THAT grammar
+passes `Verify()` and its table is conflict-free, the call terminates and returns no error iff its input is a sentence
+of that grammar — whatever the parser has parsed before and whatever the grammar was then. -/
+theorem C12_parser_object_history (g : Grammar T N) (hset : IsSetGrammar g) (pre post : List (PStep T N))
+    (w : List T) (o₁ o₂ : IterOrder T N) (h₁ : o₁.Fair) (h₂ : o₂.Fair)
+    (hv : validB (applyEdits g (editsOf pre)) = true) (an : Analysis T N)
+    (han : analyse (applyEdits g (editsOf pre)) o₁ o₂ = .ok an)
+    (hcf : conflicts (applyEdits g (editsOf pre)) (firstStr an.first) an.follow = []) :
+    (∀ fuel, (parserHistory fuel g (pre ++ .parse w o₁ o₂ :: post))[parsesIn pre]? =
+      some (freshParse fuel (applyEdits g (editsOf pre)) w o₁ o₂)) ∧
+    ∃ fuel₀ r, (∀ fuel, fuel ≥ fuel₀ →
+        (parserHistory fuel g (pre ++ .parse w o₁ o₂ :: post))[parsesIn pre]? = some (.ok (.done r))) ∧
+      ((∃ E, r = .accept E) ↔ Language (applyEdits g (editsOf pre)) w) := by
+  refine ⟨fun fuel => parserHistory_at fuel g pre post w o₁ o₂, ?_⟩
+  have hnd := (applyEdits_isSet (editsOf pre) g hset).2.2
+  obtain ⟨fuel₀, r, hall, hiff⟩ := C12_decides_language _ hv hnd o₁ o₂ h₁ h₂ an han hcf w
+  refine ⟨fuel₀, r, ?_, hiff⟩
+  intro fuel hf
+  rw [parserHistory_at]
+  simp only [freshParse, han]
+  rw [hall fuel hf]
+
 end
 
 /-! ## non-vacuity: `S → a A b`, `A → ε | a A` (terminals `0 = a`, `1 = b`; non-terminals `0 = S`, `1 = A`) -/
@@ -361,3 +408,29 @@ example : ∃ an, analyse C12ex IterOrder.canon IterOrder.canon = .ok an ∧
     parseWithF C12ex an (some 2) none none 50 [0, 0, 1] = .ok (.done
       [.prod ⟨0, [.term 0, .nonterm 1, .term 1]⟩, .tok 0 0, .prod ⟨1, [.term 0, .nonterm 1]⟩, .tok 0 1] (.fail .lexer)) :=
   ⟨_, rfl, rfl, rfl, rfl, rfl, rfl⟩
+
+/-- the lexer's ways of ending: `a a b` then `io.EOF` (the answers end), then an end-of-input error with a token `9`
+beside it, then nothing but that error — the same accepting run; a failure at call 2 is the failing call of `parseWithF` -/
+example : ∃ an, analyse C12ex IterOrder.canon IterOrder.canon = .ok an ∧
+    parseWithL C12ex an [.tok 0, .tok 0, .tok 1] none none 50 = parseWithF C12ex an none none none 50 [0, 0, 1] ∧
+    parseWithL C12ex an [.tok 0, .tok 0, .tok 1, .eof (some 9), .tok 1] none none 50 =
+      parseWithF C12ex an none none none 50 [0, 0, 1] ∧
+    parseWithL C12ex an [.tok 0, .tok 0, .fail, .tok 1] none none 50 = parseWithF C12ex an (some 2) none none 50 [0, 0] ∧
+    lexTokens [LexAnswer.tok 0, .tok 0, .tok 1, .eof (some 9), .tok 1] = [0, 0, 1] ∧
+    lexFailAt [LexAnswer.tok (0 : Nat), .tok 0, .fail, .tok 1] = some 2 :=
+  ⟨_, rfl, rfl, rfl, rfl, rfl, rfl⟩
+
+/-- one parser object: made for `C12ex`, it accepts `a a b`; `S → a A b` is then turned into `S → a A` through the pointer
+of the production (`setBody`), `A → b` added through the set `Get` returns (`getAdd`) and removed again: the same object
+now rejects `a a b` and accepts `a a` — the grammar stays a set grammar all along -/
+example : IsSetGrammar C12ex ∧
+    (parserHistory 50 C12ex
+      [.parse [0, 0, 1] IterOrder.canon IterOrder.canon,
+       .edit (.setBody ⟨0, [.term 0, .nonterm 1, .term 1]⟩ [.term 0, .nonterm 1]),
+       .edit (.getAdd ⟨1, [.term 1]⟩), .edit (.removeProd ⟨1, [.term 1]⟩),
+       .parse [0, 0, 1] IterOrder.canon IterOrder.canon,
+       .parse [0, 0] IterOrder.canon IterOrder.canon]).map (fun r => match r with
+        | .ok (.done (.accept _)) => 1
+        | .ok (.done (.reject _)) => 0
+        | _ => 2) = [1, 0, 1] :=
+  ⟨⟨by decide, by decide, by decide⟩, by decide⟩
